@@ -726,6 +726,78 @@ pub fn run(ctx: &mut Ctx, hash: bool) {
         }
     }
 
+    // (0b-c) clones that diverge and meet again: two clones of one unordered compound (they share the hash
+    // seed of the original) receive the same extra members in different orders - and one of them some
+    // members more that are taken out again through the public field - and must compare / hash equal,
+    // alone and as members of separately built outer compounds
+    for k in SET_KINDS {
+        for (nb, ne) in [(1usize, 2usize), (3, 4), (4, 9), (8, 30), (2, 70)] {
+            idx += 1;
+            if !ctx.mine(idx) {
+                continue;
+            }
+            ctx.report.eval();
+            ctx.report.bump("family.diverged-clones");
+            ctx.report.nontrivial(&format!("clones|{}|{}|{}", k.tag(), nb, ne));
+            let kk = k;
+            let r = observe(move || -> Option<String> {
+                let base = TD::comp(kk, (0..nb).map(|i| TD::word(&format!("b{}", i))).collect()).build();
+                let extra: Vec<Term> = (0..ne).map(|i| Term::new_word(format!("e{}", i))).collect();
+                for round in 0..6usize {
+                    let (mut c1, mut c2) = (base.clone(), base.clone());
+                    let mut rev = extra.clone();
+                    rev.reverse();
+                    let rot__ = round % rev.len().max(1);
+                    rev.rotate_left(rot__);
+                    if c1.push_components(extra.clone()).is_err() || c2.push_components(rev).is_err() {
+                        return None; // owned by C17
+                    }
+                    // grow and shrink one of them through the public variant field
+                    if let Term::SetExtension(s) | Term::SetIntension(s) | Term::IntersectionExtension(s) | Term::IntersectionIntension(s) | Term::Conjunction(s) | Term::Disjunction(s) | Term::ConjunctionParallel(s) = &mut c2 {
+                        let tmp: Vec<Term> = (0..40 + round).map(|i| Term::new_word(format!("tmp{}", i))).collect();
+                        for t in &tmp {
+                            s.insert(t.clone());
+                        }
+                        for t in &tmp {
+                            s.remove(t);
+                        }
+                    }
+                    let pairs = [
+                        (c1.clone(), c2.clone()),
+                        (Term::new_set_extension(vec![c1.clone(), Term::new_word("z")]), Term::new_set_extension(vec![Term::new_word("z"), c2.clone()])),
+                        (Term::new_similarity(c1.clone(), Term::new_word("z")), Term::new_similarity(Term::new_word("z"), c2.clone())),
+                    ];
+                    for (a, b) in pairs.iter() {
+                        if hash {
+                            if hash_with(a, DefaultHasher::new()) != hash_with(b, DefaultHasher::new()) {
+                                return Some("two clones that received the same members by different routes hash differently".into());
+                            }
+                            let mut set = HashSet::new();
+                            set.insert(a.clone());
+                            if !set.contains(b) {
+                                return Some("HashSet{clone 1}.contains(clone 2) is false although both hold the same members".into());
+                            }
+                        } else if a != b || b != a || !(a == b) {
+                            return Some("two clones that received the same members by different routes compare unequal".into());
+                        }
+                    }
+                }
+                None
+            });
+            let why = match r {
+                Obs::Ret(x) => x,
+                Obs::Panic(p) => Some(format!("panicked: {}", p)),
+            };
+            if let Some(w) = why {
+                ctx.report.violate(
+                    format!("{}|diverged-clones|{}|{}", if hash { "C07" } else { "C06" }, k.tag(), w),
+                    format!("{} ({} with {} original and {} added members)", w, k.tag(), nb, ne),
+                    J::obj().set("kind", "diverged-clones").set("k", k.tag()),
+                );
+            }
+        }
+    }
+
     // (0b'') values that replace one another in the same place: a term is hashed, then overwritten (same
     // variable, so the same address) by a different term of the same kind and size, which must hash and
     // compare like an independently built copy of itself that lives elsewhere
@@ -915,7 +987,7 @@ pub fn replay(ctx: &mut Ctx, d: &J, hash: bool) -> Option<()> {
         }
         return Some(());
     }
-    if jstr(d, "kind").as_deref() == Some("extreme-arity") {
+    if matches!(jstr(d, "kind").as_deref(), Some("extreme-arity") | Some("diverged-clones")) {
         // (re-run as a whole by the check itself)
         return Some(());
     }
